@@ -329,8 +329,24 @@ def replay(ck, states, seen, wdir, shapes, crashes, info_counts, ok_for_multi):
     return len(states)
 
 
+class Phases:
+    """wall time per phase of the check, written into the evidence (coverage.phase_s)"""
+
+    def __init__(self, ck):
+        import time
+
+        self.ck, self.t, self.cur, self.d, self.time = ck, time.time(), "tlc+replay", {}, time
+
+    def mark(self, name):
+        now = self.time.time()
+        self.d[self.cur] = round(self.d.get(self.cur, 0) + now - self.t, 1)
+        self.t, self.cur = now, name
+        self.ck.note("phase_s", dict(self.d))
+
+
 def main():
     ck = Check("C20")
+    ph = Phases(ck)
     tier = ck.tier
     ck.rule = (
         "TLC builds every haplotype record of the bounded domain (<= 2 ALT x <= 2 SNV sites over {A,C,G}, layouts of SNVPOS "
@@ -369,6 +385,7 @@ def main():
     ck.note("crashes_by_shape", {"/".join(map(str, k)): v for k, v in crashes.items()})
     ck.note("informational_mismatches_outside_property", info_counts)
 
+    ph.mark("multi-record")
     # several records in one file: the output is the concatenation of the per-record outputs
     rnd = random.Random(ck.seed)
     multi_tasks, multi_expect = [], []
@@ -408,6 +425,7 @@ def main():
                              key={"site": SITE, "field": f_, "shape": "multi-record"})
         ck.traces += 1
 
+    ph.mark("cli")
     # ---- the real command line: `mchap atomize <file>` in a fresh interpreter, one file per record shape ----
     cli = []
     for shp, s in sorted(SHAPE_EXAMPLE.items()):
@@ -433,6 +451,7 @@ def main():
                          key={"site": "cli:atomize", "field": f_, "shape": shp})
     ck.note("cli_runs", len(cli))
 
+    ph.mark("programs")
     # ---- code -> spec ------------------------------------------------------
     events, sources = [], []
     hap_texts = []  # (label, text)
@@ -484,6 +503,7 @@ def main():
         rec = random_record(rnd)
         rtext.append(("random:%d" % i, render(rec, rid="X%d" % i if i % 2 else None)))
 
+    ph.mark("atomize-traces")
     # atomize record by record (so that one rejected record does not hide the others) and whole files
     items, meta = [], []
     for label, text in hap_texts + rtext:
@@ -528,6 +548,7 @@ def main():
                 ck.violation("stream-mismatch", {"file": label, "whole_file_lines": len(got),
                                                  "per_record_lines": len(per_file_lines.get(label, []))},
                              key={"site": SITE, "field": "whole-file-vs-per-record"})
+    ph.mark("trace")
     tf = os.path.join(ck.wd, "trace.json")
     with open(tf, "w") as fh:
         json.dump(events, fh)
@@ -608,6 +629,7 @@ def main():
         shutil.rmtree(wdir, ignore_errors=True)
     except Exception:
         pass
+    ph.mark("end")
     ck.exhaustive = True
     ck.assumptions = [
         "TLC and the CommunityModules Json/IOUtils operators are correct",
